@@ -38,13 +38,13 @@ LEVEL_NOTE = ("floating-point rounding is not modelled (tolerance run, fractiona
               "shower_signal(t0+m*dt) reaches exactly that state, and the case where the int() argument crosses "
               "zero, in which one more / one fewer +-10 ns tail sample of RAC is kept); C07_arz_cone_partial (only the time-compression factor (1-n cos theta)/c is "
               "shown to vanish at theta_c and to grow strictly with the angular distance on either side, not the "
-              "sampled amplitude, which on coarse grids is not ordered: K7); C07_cone_factor_max_mono is about the "
+              "sampled amplitude, which on coarse grids is not ordered: K13); C07_cone_factor_max_mono is about the "
               "ZHS Gaussian and the AVZ width factor at every frequency (C07_zhs_amplitude_max_on_cone lifts it to the "
               "whole ZHS spectral amplitude) - the extra sin(theta)/sin(theta_c) prefactor of AVZ/ARZ moves the exact "
               "maximum outward by about 0.49*width^2 rad, i.e. < 0.1 degree above 500 MHz, below the 0.5 degree "
               "resolution of the search sweep (which uses dt <= 0.5 ns for AVZ and <= 0.1 ns for ARZ). "
               "C07_finite_* state that every denominator of the model is non-zero (hadronic ARZ profile: for "
-              "X_max > interaction length, i.e. shower energy > 2.96 GeV - below that see K6); they do not bound "
+              "X_max > interaction length, i.e. shower energy > 2.96 GeV - below that see K12); they do not bound "
               "magnitudes. Whole-sample moves of ZHS/AVZ are stated inside the placement range |shift| <= N beyond "
               "which the code deliberately returns zeros; AVZ for samples 0..N-2 when N is odd (last sample: K5, "
               "C07_avz_odd_last_sample_extrapolated proves what it is). ARZ energies at or below the critical "
@@ -510,7 +510,7 @@ TOL = {"zhs": 1e-7, "avz": 1e-7, "arz": 2e-3}       # shift relations, relative 
 K6_RANGE = (0.17006, 2.9607)
 
 
-def in_k6(kind, c, over=None):
+def in_k12(kind, c, over=None):
     """ARZ off the cone with a hadronic shower energy between the critical energy and 2.96 GeV"""
     if kind != "arz":
         return False
@@ -529,7 +529,7 @@ def rel_check(run, kind, c, relation, deep=False):
             raise
         return {"observed": "exception %s" % repr(e)[:300], "expected": "a finite array of len(times)",
                 "what": "%s: %s raised %s" % (kind, relation, type(e).__name__),
-                "key": "K6" if in_k6(kind, c) else None}
+                "key": "K12" if in_k12(kind, c) else None}
 
 
 def _bad(a, b, tol, sc):
@@ -570,7 +570,7 @@ def _rel_check(kind, c, relation):
         if len(base) != N or not np.all(np.isfinite(base)):
             return {"observed": {"len": len(base), "nonfinite": int(np.sum(~np.isfinite(base)))},
                     "expected": {"len": N, "nonfinite": 0}, "what": "%s: values not finite / wrong length" % kind,
-                    "key": "K6" if in_k6(kind, c) else None}
+                    "key": "K12" if in_k12(kind, c) else None}
         return None
     if not np.all(np.isfinite(base)):
         return None   # reported by "finite"
@@ -744,10 +744,10 @@ def search(run, deep):
             c["dpsi"] = 0.0
             c["step"] = r.choice([0.5, 0.7, 1.0, 2.0])
             if kind == "arz":
-                c["dt"] = r.choice([2.5e-11, 5e-11, 1e-10])   # coarser grids under-sample the on-cone pulse: K7
+                c["dt"] = r.choice([2.5e-11, 5e-11, 1e-10])   # coarser grids under-sample the on-cone pulse: K13
             if kind == "avz":
                 # band limit >= 1 GHz: below 500 MHz the AVZ width (2.7 deg * 500 MHz / f) is so large that the
-                # sin(theta)/sin(theta_c) prefactor moves the maximum by more than the sweep step (K7)
+                # sin(theta)/sin(theta_c) prefactor moves the maximum by more than the sweep step (K13)
                 c["dt"] = r.choice([1e-10, 2e-10, 2.5e-10, 5e-10])
             run.case(("sweep",) + desc(kind, c) + (c["step"],))
             run.count("sweep_" + kind)
@@ -782,17 +782,17 @@ def known_probes(run):
     res = rel_check(run, "avz", even, "move")
     if res is not None:
         report(run, "avz", even, "move", res)
-    # K6: ARZ off the cone with a hadronic shower of 0.17..2.96 GeV: Gaisser-Hillas X_max below the interaction
+    # K12: ARZ off the cone with a hadronic shower of 0.17..2.96 GeV: Gaisser-Hillas X_max below the interaction
     # length, negative base to a fractional power -> all-NaN trace
     c6 = {"E": 1e3, "em": 0.999, "had": 0.001, "z": -1000.0, "R": 100.0, "sgn": 1, "dpsi": 0.05, "psi": None,
           "N": 64, "dt": 5e-10, "off": 0.0, "k": 20, "frac": 0.3}
     res = rel_check(run, "arz", c6, "finite")
     if res is not None:
-        if res.get("key") == "K6":
-            run.known_finding("K6")
+        if res.get("key") == "K12":
+            run.known_finding("K12")
         else:
             report(run, "arz", c6, "finite", res)
-    # K7: coarse grids: the sampled amplitude is not largest on the cone (ARZ: under-sampled on-cone pulse;
+    # K13: coarse grids: the sampled amplitude is not largest on the cone (ARZ: under-sampled on-cone pulse;
     # AVZ: band limit below 500 MHz, sin(theta) prefactor wins over the wide low-frequency cone factor)
     c7a = {"E": 2121007.67, "em": 0.3215, "had": 0.0575, "z": -918.87, "R": 100.0, "sgn": 1, "dpsi": 0.0,
            "psi": None, "N": 129, "dt": 1.8474304440460655e-09, "off": 0.0, "k": 64, "frac": 0.76, "step": 0.5}
@@ -801,7 +801,7 @@ def known_probes(run):
         if "exception" in str(res.get("observed")):
             report(run, "avz", c7a, "cone_max", res)
         else:
-            run.known_finding("K7")
+            run.known_finding("K13")
     c7 = {"E": 7.3e9, "em": 1.0, "had": 0.0, "z": -1000.0, "R": 100.0, "sgn": 1, "dpsi": 0.0, "psi": None,
           "N": 200, "dt": 1e-9, "off": 0.0, "k": 100, "frac": 0.42, "step": 0.5}
     res = rel_check(run, "arz", c7, "cone_max")
@@ -809,7 +809,7 @@ def known_probes(run):
         if "exception" in str(res.get("observed")):
             report(run, "arz", c7, "cone_max", res)
         else:
-            run.known_finding("K7")
+            run.known_finding("K13")
 
 
 def replay(run, data):
